@@ -31,9 +31,14 @@ var (
 
 const dBase = int64(1_000_000)
 
+// dFrozen: the clock keeps returning the same reading (several changes within one clock tick)
+var dFrozen bool
+
 func dInstallClock() {
 	distributed.VerifSetClock(func() int64 {
-		dTick++
+		if !dFrozen {
+			dTick++
+		}
 		off := int64(0)
 		if dCur != nil {
 			off = dCur.off
@@ -41,7 +46,7 @@ func dInstallClock() {
 		return dBase + 10*dTick + off
 	})
 }
-func dResetClock() { dTick = 0; dCur = nil }
+func dResetClock() { dTick = 0; dCur = nil; dFrozen = false }
 
 func newDNode(name string, peer uint64, off int64) *dnode {
 	q := &memberlist.TransmitLimitedQueue{RetransmitMult: 1, NumNodes: func() int { return 1 }}
